@@ -61,6 +61,8 @@ pub trait Subject {
     fn get(&mut self, k: u32) -> Option<(u32, u32)>;
     fn contains(&mut self, k: u32) -> bool;
     fn iter(&mut self) -> Vec<(u32, u32, u32)>;
+    /// items yielded before and after the clock was advanced in the middle of one iteration
+    fn iter_with_advance(&mut self, after: usize, ns: u64) -> (Vec<(u32, u32, u32)>, Vec<(u32, u32, u32)>);
     fn invalidate(&mut self, k: u32);
     fn invalidate_all(&mut self);
     /// returns false if the API does not exist for this kind
@@ -151,6 +153,21 @@ impl<S: std::hash::BuildHasher + Clone> Subject for UnsyncSubject<S> {
     }
     fn iter(&mut self) -> Vec<(u32, u32, u32)> {
         self.cache.iter().map(|(k, v)| (k.k, v.seq, v.w)).collect()
+    }
+    fn iter_with_advance(&mut self, after: usize, ns: u64) -> (Vec<(u32, u32, u32)>, Vec<(u32, u32, u32)>) {
+        let (mut a, mut b) = (Vec::new(), Vec::new());
+        let mut it = self.cache.iter();
+        for _ in 0..after {
+            match it.next() {
+                Some((k, v)) => a.push((k.k, v.seq, v.w)),
+                None => break,
+            }
+        }
+        self.clock.advance(Duration::from_nanos(ns));
+        for (k, v) in it {
+            b.push((k.k, v.seq, v.w));
+        }
+        (a, b)
     }
     fn invalidate(&mut self, k: u32) {
         let key = TK::new(k, &self.reg);
@@ -317,6 +334,21 @@ impl<S: std::hash::BuildHasher + Clone + Send + Sync + 'static> Subject for Sync
             .iter()
             .map(|r| (r.key().k, r.value().seq, r.value().w))
             .collect()
+    }
+    fn iter_with_advance(&mut self, after: usize, ns: u64) -> (Vec<(u32, u32, u32)>, Vec<(u32, u32, u32)>) {
+        let (mut a, mut b) = (Vec::new(), Vec::new());
+        let mut it = self.cache.iter();
+        for _ in 0..after {
+            match it.next() {
+                Some(r) => a.push((r.key().k, r.value().seq, r.value().w)),
+                None => break,
+            }
+        }
+        self.clock.advance(Duration::from_nanos(ns));
+        for r in it {
+            b.push((r.key().k, r.value().seq, r.value().w));
+        }
+        (a, b)
     }
     fn invalidate(&mut self, k: u32) {
         let key = TK::new(k, &self.reg);
